@@ -504,8 +504,9 @@ pub trait IoBufMutExt: IoBufMut {
     /// Returns an [`Uninit`], which is a [`Slice`] that only exposes
     /// uninitialized bytes.
     ///
-    /// It will always point to the uninitialized area of a [`IoBufMut`] even
-    /// after reading in some bytes, which is done by [`SetLen`]. This
+    /// It starts at the area of the [`IoBufMut`] that is uninitialized at the
+    /// time of the call. Bytes recorded through it with [`SetLen`] become a
+    /// prefix of its writable region, like for any other view. This
     /// is useful for writing data into buffer without overwriting any
     /// existing bytes.
     ///
